@@ -110,6 +110,8 @@ def _validate_chunk(module, cfg_name, path, nrec, workers, timeout, extra_env):
     judged = int(m.group(1)) if m else None
     res["fails"] = fails
     res["judged"] = judged
+    res["notes"] = [(m.group(2), m.group(3)) for m in re.finditer(
+        r'<<"VERDICT-NOTE", ("?)([^,"]+)\1, "([^"]*)">>', out)]
     return res
 
 
@@ -130,6 +132,7 @@ def validate_traces(module, cfg_name, records, chunk=1500, parallel=8, workers=2
             json.dump(ch, fh, separators=(",", ":"))
         paths.append((p, len(ch)))
     fails = {}
+    notes = []
     states = trans = 0
     with ThreadPoolExecutor(max_workers=parallel) as ex:
         futs = [ex.submit(_validate_chunk, module, cfg_name, p, n, workers, timeout, extra_env)
@@ -138,6 +141,7 @@ def validate_traces(module, cfg_name, records, chunk=1500, parallel=8, workers=2
             res = f.result()
             for rid, clause in res["fails"]:
                 fails.setdefault(rid, clause)
+            notes += res["notes"]
             states += res.get("distinct", 0)
             trans += res.get("generated", 0)
             # vacuity guard: every record must have been reached by TLC
@@ -145,7 +149,7 @@ def validate_traces(module, cfg_name, records, chunk=1500, parallel=8, workers=2
             if res.get("distinct", 0) < min_states:
                 raise TLCError("trace run explored %s states for %d records (%s)" % (res.get("distinct"), n, p))
     shutil.rmtree(d, ignore_errors=True)
-    return {"fails": fails, "states": states, "transitions": trans, "judged": len(records)}
+    return {"fails": fails, "states": states, "transitions": trans, "judged": len(records), "notes": notes}
 
 
 def sany(module):
